@@ -261,6 +261,58 @@ def rules(rep, m):
                 r4.fail()
 
 
+    # R-C15-5 ------------------------------------------------------------
+    r5 = rep.rule("R-C15-5", "the generator step and the bootstrap mixer compute the published functions: sfc64 (tmp = a + b + "
+                  "counter++; a = b ^ (b >> 11); b = c + (c << 3); c = rotl(c, 24) + tmp; output tmp) and splitmix64 (state += "
+                  "0x9e3779b97f4a7c15; z = (z ^ (z >> 30)) * 0xbf58476d1ce4e5b9; z = (z ^ (z >> 27)) * 0x94d049bb133111eb; "
+                  "output z ^ (z >> 31)), compared as normal forms of symbolic 64-bit expressions (linear parts modulo 2^64, "
+                  "commutative operators sorted, rotations recognised) - not as text", floor=2)
+    from ..engines import sym64 as S64
+
+    def field_state(prefix):
+        def name(n):
+            n = strip(n, casts=True)
+            if n["kind"] == "MemberExpr" and not n.get("isArrow"):
+                b = strip(kids(n)[0], casts=True)
+                if b["kind"] == "DeclRefExpr" and b["ref"]["name"] == prefix:
+                    return n["name"]
+            if n["kind"] == "DeclRefExpr" and n["ref"]["name"] == prefix:
+                return prefix
+            return None
+        return name
+
+    A, B, C, D = (S64.atom(x) for x in "abcd")
+    tmp = S64.add(S64.add(A, B), D)
+    ref_sfc = {"a": S64.bitop("^", B, S64.shr(B, 11)), "b": S64.add(C, S64.shl(C, 3)),
+               "c": S64.add(S64.atom(("rotl", C, 24)), tmp), "d": S64.add(D, S64.const(1)), "return": tmp}
+    Z0 = S64.add(S64.atom("splitmix_state"), S64.const(0x9e3779b97f4a7c15))
+    z1 = S64.mul(S64.bitop("^", Z0, S64.shr(Z0, 30)), S64.const(0xbf58476d1ce4e5b9))
+    z2 = S64.mul(S64.bitop("^", z1, S64.shr(z1, 27)), S64.const(0x94d049bb133111eb))
+    ref_mix = {"splitmix_state": Z0, "return": S64.bitop("^", z2, S64.shr(z2, 31))}
+    for fname, prefix, ref in (("cmb_random_sfc64", "prng_state", ref_sfc), ("splitmix64", "splitmix_state", ref_mix)):
+        f = m.need(fname)
+        try:
+            sv = S64.Sym(f, field_state(prefix)).run()
+        except S64.Undecided as e:
+            raise AnalysisBroken("R-C15-5: %s cannot be evaluated symbolically (%s)" % (fname, e))
+        got = {k_: v_ for k_, v_ in sv.env.items() if not k_.startswith("local:")}
+        got["return"] = sv.ret
+        r5.instance("%s: %s" % (fname, {k_: S64.show(v_)[:90] for k_, v_ in sorted(got.items())}))
+        rep.sample({"rule": "R-C15-5", "function": fname, "normal_forms": {k_: S64.show(v_)[:160] for k_, v_ in sorted(got.items())}})
+        for k_ in sorted(ref):
+            if got.get(k_) != ref[k_]:
+                rep.finding(r5, fname, "generator:" + k_, "%s computes %s = %s; the published algorithm has %s" %
+                            (fname, "its output" if k_ == "return" else k_, S64.show(got.get(k_) or ())[:200], S64.show(ref[k_])[:200]),
+                            where=m.rel(f.where))
+                r5.fail()
+            else:
+                r5.ok()
+        extra = set(got) - set(ref)
+        if extra:
+            rep.finding(r5, fname, "generator:extra-state", "%s also writes %s" % (fname, sorted(extra)), where=m.rel(f.where))
+            r5.fail()
+
+
 def run(tier="quick"):
     models = common.load_models(tier)
     rep = Report(PID, tier, models[0])
